@@ -38,7 +38,13 @@ pub enum SOp {
     Slash { v: String, p: String },
     /// advance block time by `nanos`; the twin instance advances in `pieces` (nanoseconds, summing to `nanos`)
     /// and lets an unrelated delegator trigger reward updates in between
-    Advance { nanos: u64, pieces: Vec<u64> },
+    Advance {
+        nanos: u64,
+        pieces: Vec<u64>,
+        /// use App::set_block (a complete new BlockInfo) instead of App::update_block
+        #[serde(default)]
+        set: bool,
+    },
 }
 
 #[derive(Clone, Debug, Serialize, Deserialize)]
@@ -138,8 +144,13 @@ impl Inst {
                 Ok(pd) => self.app.sudo(SudoMsg::Staking(StakingSudo::Slash { validator: v.clone(), percentage: pd })).map(|_| ()).map_err(|e| format!("{:#}", e)),
                 Err(e) => Err(format!("harness: bad decimal {}", e)),
             },
-            SOp::Advance { nanos, pieces } => {
-                if split {
+            SOp::Advance { nanos, pieces, set } => {
+                if *set && !split {
+                    let mut b = self.app.block_info();
+                    b.time = b.time.plus_nanos(*nanos);
+                    b.height += 1;
+                    self.app.set_block(b);
+                } else if split {
                     let vals: Vec<String> = self.validators.clone();
                     for (i, p) in pieces.iter().enumerate() {
                         let p = *p;
@@ -719,6 +730,11 @@ impl Run {
             for v in &vals {
                 let a = shown_after(d, v);
                 rep.bump("stk/delegation_compared");
+                // the query against the committed raw state (floor of the stored fractional stake)
+                let raw_amount = rs.stakes.get(&(m.delegators[d].clone(), v.clone())).map(|x| x.0.floor_u128()).unwrap_or(0);
+                if rs.decode_errors.is_empty() && a != raw_amount {
+                    fails.push(("C10".into(), "staking-query-differs-from-committed-state".into(), format!("{:?}: delegator {} at {}: Delegation query shows {}, raw state holds {}", op, d, v, a, raw_amount)));
+                }
                 if a != m.shown(d, v) {
                     let tag = if kind == "slash" { "C16" } else { "C14" };
                     fails.push((tag.into(), format!("delegation-differs-after-{}", kind), format!("{:?}: delegator {} at {} shows {}, model {}", op, d, v, a, m.shown(d, v))));
@@ -734,6 +750,7 @@ impl Run {
                     }
                     if pos != want {
                         fails.push(("C14".into(), "all-delegations-disagrees-with-delegation-query".into(), format!("{:?}: delegator {}: AllDelegations {:?}, Delegation queries {:?}", op, d, pos, want)));
+                        fails.push(("C10".into(), "staking-queries-disagree-with-each-other".into(), format!("{:?}: delegator {}: AllDelegations {:?}, Delegation queries {:?}", op, d, pos, want)));
                     }
                 }
                 Err(e) => fails.push(("C14".into(), "all-delegations-query-failed".into(), e)),
@@ -821,7 +838,10 @@ impl Run {
                             rep.bump("stk/pending_vs_raw_state_checked");
                             let shown_p = pending_after(d, v);
                             if shown_p != f0 && shown_p != f1 {
-                                fails.push(("C15".into(), "pending-query-differs-from-credited-plus-uncredited".into(), format!("{:?}: delegator {} at {}: query shows {}, raw state implies {:.9}", op, d, v, shown_p, vq.to_f64())));
+                                let detail = format!("{:?}: delegator {} at {}: query shows {}, raw state implies {:.9}", op, d, v, shown_p, vq.to_f64());
+                                fails.push(("C15".into(), "pending-query-differs-from-credited-plus-uncredited".into(), detail.clone()));
+                                // a query must observe exactly the committed state
+                                fails.push(("C10".into(), "staking-query-differs-from-committed-state".into(), detail));
                             }
                         }
                     }
@@ -1054,7 +1074,7 @@ pub fn gen_op(rng: &mut Rng, m: &Model, mix: Mix) -> SOp {
                 pieces.push(p);
                 left -= p;
             }
-            SOp::Advance { nanos, pieces }
+            SOp::Advance { nanos, pieces, set: rng.chance(1, 3) }
         }
     }
 }
@@ -1118,7 +1138,7 @@ pub fn templates() -> Vec<(String, Case)> {
     let v0 = "validator0".to_string();
     let v1 = "validator1".to_string();
     let t = DENOM.to_string();
-    let adv = |s: u64| SOp::Advance { nanos: s * NANOS, pieces: vec![(s / 2) * NANOS, (s - s / 2) * NANOS] };
+    let adv = |s: u64| SOp::Advance { nanos: s * NANOS, pieces: vec![(s / 2) * NANOS, (s - s / 2) * NANOS], set: s % 2 == 1 };
     vec![
         (
             "dust-cleanup-then-reward-update".into(),
